@@ -75,3 +75,27 @@ func Verif_C02_garbage_stream() {
 		verifapi.Assert("message-is-prefix-payload", bytes.Equal(msg, raw[2:2+len(msg)]))
 	}
 }
+
+// Verif_C07_stream_bytes (property C07): whatever bytes a stream peer sends, in whatever chunks, the
+// receive loop of the stream backends (feed the framer until it reports a message, then take it) never
+// panics, reports a message only when header+length bytes are there, and hands out exactly that many.
+func Verif_C07_stream_bytes() {
+	raw := verifapi.BytesUpTo(5)
+	cut := verifapi.Choose(len(raw) + 1)
+	rx := New()
+	rx.RecvData(raw[:cut])
+	if !rx.MessageReady() {
+		rx.RecvData(raw[cut:])
+	}
+	verifapi.Cover("stream-consumed")
+	if rx.MessageReady() {
+		verifapi.Cover("message-reported")
+		sz := int(raw[0]) | int(raw[1])<<8
+		verifapi.Assert("message-reported-only-when-complete", len(raw) >= sz+2)
+		msg, err := rx.GetMessage()
+		verifapi.Assert("reported-message-can-be-taken", verifapi.All(err == nil, len(msg) == sz))
+	} else {
+		_, err := rx.GetMessage()
+		verifapi.Assert("incomplete-message-is-an-error-not-a-crash", err != nil)
+	}
+}
